@@ -266,6 +266,10 @@ def evaluate(prop, scen, obs, ctx, nodevals=None):
         cs += oracle_cycle(fl, g, spec, out)
     elif spec.get('target') is not None:
         cs += oracle_target(prop, g, spec, out)
+        if 'result2' in out:
+            # a second run of the same search object must be as good as the first
+            out2 = {'result': out['result2'], 'calls': out['calls2']}
+            cs += [(c, 'second run of the same search object: ' + m, k) for c, m, k in oracle_target(prop, g, spec, out2)]
     if spec['alg'] == 'pfs' and spec.get('method') in ('filter', 'foreach'):
         cs += oracle_priority(g, spec, out, nodevals)
     return cs
@@ -378,6 +382,18 @@ def single_reject(items):
             yield (cell[0], cell[1], cell[2], 'filter-one'), s2
 
 
+def with_repeat(items):
+    """the same search object searched twice (legal for search_path and for pfs search: they take &mut self)"""
+    for cell, scen in items:
+        kind, spec = scen['steps'][-1]
+        if spec['mode'] == 'path' or (spec['mode'] == 'search' and spec.get('alg') == 'pfs'):
+            s2 = dict(scen)
+            sp = dict(spec)
+            sp['repeat'] = True
+            s2['steps'] = scen['steps'][:-1] + [[kind, sp]]
+            yield (cell[0], cell[1], cell[2] + '-twice', cell[3]), s2
+
+
 def items_for(prop, tier):
     n = 3
     m = 3 if tier == 'quick' else 4
@@ -387,15 +403,18 @@ def items_for(prop, tier):
         for fl in FLAVOURS:
             items += scen_target(fl, 'bfs', n, m, ('none',))
             items += scen_target(fl, 'bfs', n, mf, ('filter',))
+            items += with_repeat(scen_target(fl, 'bfs', n, 2, ('none', 'filter')))
     elif prop == 'C05':
         for fl in FLAVOURS:
             items += scen_target(fl, 'dfs', n, m, ('none',))
             items += scen_target(fl, 'dfs', n, mf, ('filter',))
+            items += with_repeat(scen_target(fl, 'dfs', n, 2, ('none', 'filter')))
     elif prop == 'C06':
         for fl in FLAVOURS:
             items += scen_target(fl, 'pfs', n, mf, ('filter',), prios=('min', 'max'))
             items += scen_notarget(fl, 'pfs', n, m, ('foreach',), prios=('min', 'max'))
             items += scen_target(fl, 'pfs', n, mf, ('none',), prios=('min', 'max'))
+            items += with_repeat(scen_target(fl, 'pfs', n, 2, ('none', 'filter'), prios=('min', 'max')))
     elif prop == 'C07':
         for fl in FLAVOURS:
             for alg in ('bfs', 'dfs', 'pfs'):
